@@ -44,6 +44,8 @@ type Config struct {
 	YieldP   float64 // probability that a chunk yield actually yields
 	MaxDelay int     // a yield sleeps 1..MaxDelay quanta
 
+	Trace bool // record wake instants per stream
+
 	PoolPolicy int // 0 LIFO, 1 FIFO, 2 seeded choice incl. drop/fresh
 	Poison     bool
 }
@@ -55,6 +57,7 @@ func Install(c *Config) {
 	cfg.Store(c)
 	regMu.Lock()
 	nextSlot = 0
+	streams = nil
 	regMu.Unlock()
 	statMu.Lock()
 	stats = map[string]*SiteStat{}
@@ -383,9 +386,34 @@ func cmpOrd[T int | int64 | uint64 | float64](a, b T) int {
 const Quantum = time.Duration(1 << 20)
 
 var (
-	regMu    sync.Mutex // taken only when a stream is created
+	regMu    sync.Mutex // taken only when a stream (or a pool) is created
 	nextSlot int64
+	streams  []*Stream
+	pools    []*Pool
 )
+
+// Streams returns the streams created since Install (call it after the run).
+func Streams() []*Stream {
+	regMu.Lock()
+	defer regMu.Unlock()
+	return append([]*Stream(nil), streams...)
+}
+
+// PoolCounters sums the counters of every pool that was used in this process.
+func PoolCounters() (gets, reused, dropped, poisoned int) {
+	regMu.Lock()
+	ps := append([]*Pool(nil), pools...)
+	regMu.Unlock()
+	for _, p := range ps {
+		p.mu.Lock()
+		gets += p.Gets
+		reused += p.Reused
+		dropped += p.Dropped
+		poisoned += p.Poisoned
+		p.mu.Unlock()
+	}
+	return
+}
 
 // Stream is a source of yields owned by exactly one goroutine at a time.
 type Stream struct {
@@ -393,6 +421,7 @@ type Stream struct {
 	slot   time.Duration
 	Yields int
 	Name   string
+	Wakes  []int64 // fake wake instants (only with Config.Trace); owned by the stream's goroutine
 }
 
 // NewStream creates a yield stream; name must be unique within a run and independent of timing.
@@ -408,7 +437,11 @@ func NewStream(name string) *Stream {
 	if time.Duration(slot) >= Quantum {
 		panic("simrt: too many streams")
 	}
-	return &Stream{r: rng{hashString(mix(c.Seed, 0x5eed), name)}, slot: time.Duration(slot), Name: name}
+	st := &Stream{r: rng{hashString(mix(c.Seed, 0x5eed), name)}, slot: time.Duration(slot), Name: name}
+	regMu.Lock()
+	streams = append(streams, st)
+	regMu.Unlock()
+	return st
 }
 
 // Yield gives up the processor: sleeps until a wake instant nobody else has. Inside a synctest bubble
@@ -427,6 +460,9 @@ func (s *Stream) Yield() {
 	now := time.Duration(time.Now().UnixNano())
 	wake := (now/Quantum+time.Duration(d))*Quantum + s.slot
 	time.Sleep(wake - now)
+	if c.Trace {
+		s.Wakes = append(s.Wakes, int64(wake))
+	}
 }
 
 // MaybeYield yields with the run's chunk probability.
@@ -535,6 +571,9 @@ func (p *Pool) Get() any {
 	defer p.mu.Unlock()
 	if !p.init {
 		p.init = true
+		regMu.Lock()
+		pools = append(pools, p)
+		regMu.Unlock()
 		seed := uint64(1)
 		if c != nil {
 			seed = c.Seed
